@@ -18,7 +18,8 @@ VARIABLES dir,       \* [cards, dio ("absent" | "zero" | "one"), blocsize, bpf, 
 
 vars == <<dir, listing, phase, hist>>
 
-CardsAll == 16..79          \* two full periods of the 32-card alignment cycle
+CardsAll == (16..79) \cup {127, 128, 129, 160, 200, 257}   \* two full periods of the 32-card alignment cycle, and long
+                                                           \* headers around and beyond 128 / 256 cards (template + many user cards)
 
 Pad(cards, dio) == IF dio = "one" THEN (512 - ((80 * cards) % 512)) % 512 ELSE 0
 HeaderBytes(cards, dio) == 80 * cards + Pad(cards, dio)
